@@ -28,19 +28,19 @@ PROP = dict(
          "actions over 5..40 steps with redefinitions (non-trivial when at least one action ran); distinct = hash of the trace",
     stages=[
         dict(id="c18_conditions", harness="c18_actionx", flavour="plain", args=["part=cond"],
-             cases={Q: 1500000, T: 30000000}, timeout={Q: 600, T: 5400}),
+             cases={Q: 1000000, T: 20000000}, timeout={Q: 600, T: 5400}),
         dict(id="c18_triggering", harness="c18_actionx", flavour="plain", args=["part=trigger"],
-             cases={Q: N_ENUM_CONFIGS + 150000, T: N_ENUM_CONFIGS + 4000000}, timeout={Q: 600, T: 5400}),
+             cases={Q: N_ENUM_CONFIGS + 150000, T: N_ENUM_CONFIGS + 2500000}, timeout={Q: 600, T: 5400}),
         dict(id="c18_conditions_asan", harness="c18_actionx", flavour="asan", args=["part=cond"], tiers=[T],
              cases={Q: 20000, T: 400000}, timeout={Q: 600, T: 3600}),
         dict(id="c18_triggering_asan", harness="c18_actionx", flavour="asan", args=["part=trigger"], tiers=[T],
              cases={Q: N_ENUM_CONFIGS + 2000, T: N_ENUM_CONFIGS + 60000}, timeout={Q: 600, T: 3600}),
     ],
-    min_nontrivial={Q: 1000000, T: 20000000},
+    min_nontrivial={Q: 900000, T: 15000000},
     coverage_floor=[
-        ("c18_conditions", "comparisons", {Q: 3000000, T: 80000000}),
-        ("c18_conditions", "evaluations_deck_route", {Q: 1000000, T: 25000000}),
-        ("c18_conditions", "evaluations_token_route", {Q: 1000000, T: 25000000}),
+        ("c18_conditions", "comparisons", {Q: 3000000, T: 60000000}),
+        ("c18_conditions", "evaluations_deck_route", {Q: 900000, T: 18000000}),
+        ("c18_conditions", "evaluations_token_route", {Q: 900000, T: 18000000}),
         # the enumeration must be complete, and the safety clauses must not hold vacuously
         ("c18_triggering", "enumerated_configurations", {Q: N_ENUM_CONFIGS, T: N_ENUM_CONFIGS}),
         ("c18_triggering", "enumerated_traces", {Q: N_ENUM_TRACES, T: N_ENUM_TRACES}),
